@@ -308,6 +308,211 @@ func mapTable(rel, name, leanName string) func() string {
 	}
 }
 
+// containsBranch reports whether a statement list contains break / continue / goto (outside nested function literals).
+func containsBranch(list []ast.Stmt) bool {
+	found := false
+	for _, st := range list {
+		ast.Inspect(st, func(n ast.Node) bool {
+			switch n.(type) {
+			case *ast.FuncLit:
+				return false
+			case *ast.BranchStmt:
+				found = true
+			}
+			return !found
+		})
+	}
+	return found
+}
+
+// connGuardFacts: the guards of ValidateLogConfig around `strings.Split(conn, "://")` that fixed F9:
+//   - cfgConnPartsBad: the `if len(conn) …` condition that rejects,
+//   - connIndexGuarded: every `conn[i]` occurs in a statement after that `if` in the same block, with a literal index
+//     smaller than the length the guard lets through,
+//   - connSchemes: the `switch conn[0]` cases as (scheme bytes, parser) with parser "mysql" (mysql.ParseDSN(conn[1])) or
+//     "pg" (pgconn.ParseConfig(whole string)); the default case returns an error.
+func connGuardFacts(rel string) func() string {
+	return func() string {
+		fd := mustFunc(rel, "ValidateLogConfig")
+		// the block that declares conn
+		var block []ast.Stmt
+		ast.Inspect(fd.Body, func(n ast.Node) bool {
+			var list []ast.Stmt
+			switch x := n.(type) {
+			case *ast.BlockStmt:
+				list = x.List
+			case *ast.CaseClause:
+				list = x.Body
+			}
+			for _, st := range list {
+				if a, ok := st.(*ast.AssignStmt); ok && len(a.Lhs) == 1 && src(a.Lhs[0]) == "conn" && strings.HasPrefix(src(a.Rhs[0]), "strings.Split(cfg.CtfeStorageConnectionString, \"://\")") {
+					block = list
+				}
+			}
+			return true
+		})
+		if block == nil {
+			panic(bail{rel + ": `conn := strings.Split(cfg.CtfeStorageConnectionString, \"://\")` not found in ValidateLogConfig"})
+		}
+		guardAt, declAt := -1, -1
+		var guard *ast.IfStmt
+		for i, st := range block {
+			if a, ok := st.(*ast.AssignStmt); ok && len(a.Lhs) == 1 && src(a.Lhs[0]) == "conn" {
+				declAt = i
+			}
+			if is, ok := st.(*ast.IfStmt); ok && is.Init == nil && strings.Contains(src(is.Cond), "len(conn)") && guardAt < 0 {
+				if !hasReturn(is.Body.List) || is.Else != nil {
+					failf(is, "the len(conn) guard does not return")
+				}
+				guardAt, guard = i, is
+			}
+		}
+		if guard == nil || guardAt != declAt+1 {
+			panic(bail{rel + ": no `if len(conn) … { return … }` directly after the split"})
+		}
+		t := &tr{sp: Spec{Kind: "i64", Repl: map[string]string{"len(conn)": "nParts"}}}
+		cond := t.expr(guard.Cond)
+		// indices
+		guarded := true
+		nIdx := 0
+		for i, st := range block {
+			ast.Inspect(st, func(n ast.Node) bool {
+				ix, ok := n.(*ast.IndexExpr)
+				if !ok || src(ix.X) != "conn" {
+					return true
+				}
+				nIdx++
+				lit, ok := ix.Index.(*ast.BasicLit)
+				if i <= guardAt || !ok || (lit.Value != "0" && lit.Value != "1") {
+					guarded = false
+				}
+				return true
+			})
+		}
+		// conn must not escape the block
+		uses := 0
+		ast.Inspect(fd.Body, func(n ast.Node) bool {
+			if ix, ok := n.(*ast.IndexExpr); ok && src(ix.X) == "conn" {
+				uses++
+			}
+			return true
+		})
+		if uses != nIdx {
+			guarded = false
+		}
+		// the scheme switch
+		var rows []string
+		nsw := 0
+		for _, st := range block {
+			sw, ok := st.(*ast.SwitchStmt)
+			if !ok || sw.Tag == nil || src(sw.Tag) != "conn[0]" {
+				continue
+			}
+			nsw++
+			hasDefault := false
+			for _, c := range sw.Body.List {
+				cc := c.(*ast.CaseClause)
+				if cc.List == nil {
+					hasDefault = true
+					if len(cc.Body) != 1 || !hasReturn(cc.Body) {
+						failf(cc, "default scheme case does not return an error")
+					}
+					continue
+				}
+				body := src(&ast.BlockStmt{List: cc.Body})
+				parser := ""
+				switch {
+				case strings.Contains(body, "mysql.ParseDSN(conn[1])"):
+					parser = "mysql"
+				case strings.Contains(body, "pgconn.ParseConfig(cfg.CtfeStorageConnectionString)"):
+					parser = "pg"
+				default:
+					failf(cc, "unrecognised scheme case body")
+				}
+				if !strings.Contains(body, "err != nil { return nil, ") {
+					failf(cc, "scheme case does not return the parser's error")
+				}
+				for _, e := range cc.List {
+					lit, ok := e.(*ast.BasicLit)
+					if !ok {
+						failf(e, "scheme is not a string literal")
+					}
+					v, _ := strconv.Unquote(lit.Value)
+					var bs []string
+					for _, b := range []byte(v) {
+						bs = append(bs, strconv.Itoa(int(b)))
+					}
+					rows = append(rows, fmt.Sprintf("([%s], %q)", strings.Join(bs, ", "), parser))
+				}
+			}
+			if !hasDefault {
+				failf(sw, "scheme switch without default")
+			}
+		}
+		if nsw != 1 {
+			panic(bail{fmt.Sprintf("%s: expected one `switch conn[0]`, found %d", rel, nsw)})
+		}
+		return fmt.Sprintf("/-- generated from %s func ValidateLogConfig: `if %s { return … }` directly after `conn := strings.Split(…, \"://\")` -/\ndef cfgConnPartsBad (nParts : Int) : Bool :=\n  %s\n/-- generated: every `conn[i]` (%d of them) comes after that guard in the same block, with index 0 or 1 -/\ndef connIndexGuarded : Bool := %v\n/-- generated: `switch conn[0]` — (scheme bytes, parser: \"mysql\" = mysql.ParseDSN(conn[1]), \"pg\" = pgconn.ParseConfig(whole string)); default: error -/\ndef connSchemes : List (List UInt8 × String) :=\n  [%s]\n",
+			rel, src(guard.Cond), cond, nIdx, guarded, strings.Join(rows, ", "))
+	}
+}
+
+// nilSafeFacts: ValidateLogMultiConfig / BuildLogBackendMap reach the optional sub-messages only through the nil-safe
+// getters (the fix of F9b/c): no selector `.Backends`, `.LogConfigs`, `.Backend`, `.Config` on a message value.
+func nilSafeFacts(rel string) func() string {
+	return func() string {
+		bad := []string{}
+		for _, fn := range []string{"ValidateLogMultiConfig", "BuildLogBackendMap"} {
+			fd := mustFunc(rel, fn)
+			ast.Inspect(fd.Body, func(n ast.Node) bool {
+				sel, ok := n.(*ast.SelectorExpr)
+				if !ok {
+					return true
+				}
+				switch sel.Sel.Name {
+				case "Backends", "LogConfigs", "Backend", "Config":
+					bad = append(bad, fn+": "+src(sel))
+				}
+				return true
+			})
+		}
+		return fmt.Sprintf("/-- generated from %s: ValidateLogMultiConfig and BuildLogBackendMap read `Backends`, `LogConfigs`, `Backend`, `Config` only\nthrough the nil-safe `Get…()` accessors (direct field selections found: %v) -/\ndef multiConfigNilSafe : Bool := %v\n", rel, bad, len(bad) == 0)
+	}
+}
+
+// ekuLoopFact: the loop over cfg.ExtKeyUsages looks at every name: no break / continue / goto in it, and the branch for a
+// name missing from stringToKeyUsage returns an error.
+func ekuLoopFact(rel string) func() string {
+	return func() string {
+		fd := mustFunc(rel, "ValidateLogConfig")
+		ss := findStmts(fd, func(s ast.Stmt) bool {
+			rs, ok := s.(*ast.RangeStmt)
+			return ok && src(rs.X) == "cfg.ExtKeyUsages"
+		})
+		if len(ss) != 1 {
+			panic(bail{fmt.Sprintf("%s: expected one loop over cfg.ExtKeyUsages, found %d", rel, len(ss))})
+		}
+		rs := ss[0].(*ast.RangeStmt)
+		every := !containsBranch(rs.Body.List)
+		rejects := false
+		for _, st := range rs.Body.List {
+			is, ok := st.(*ast.IfStmt)
+			if !ok || is.Init == nil || !strings.Contains(src(is.Init), "stringToKeyUsage["+src(rs.Value)+"]") || src(is.Cond) != "ok" {
+				continue
+			}
+			if eb, ok := is.Else.(*ast.BlockStmt); ok && len(eb.List) == 1 && hasReturn(eb.List) {
+				if r, ok := eb.List[0].(*ast.ReturnStmt); ok && len(r.Results) == 2 && src(r.Results[0]) == "nil" && src(r.Results[1]) != "nil" {
+					rejects = true
+				}
+			}
+			if hasReturn(is.Body.List) {
+				every = false // a return in the known-name branch would end the loop early
+			}
+		}
+		return fmt.Sprintf("/-- generated from %s func ValidateLogConfig, loop over cfg.ExtKeyUsages: no break / continue / early return for a known\nname (every name is looked at) -/\ndef ekuLoopChecksEveryName : Bool := %v\n/-- generated: a name missing from stringToKeyUsage returns an error -/\ndef ekuLoopRejectsUnknown : Bool := %v\n", rel, every, rejects)
+	}
+}
+
 func init() {
 	c := "trillian/ctfe/config.go"
 	h := "trillian/ctfe/handlers.go"
@@ -342,5 +547,8 @@ func init() {
 		{"mirrorMaxTreeSize", callArgKernel("trillian/ctfe/sth.go", "MirrorSTHGetter.GetSTH", "sg.st.GetMirrorSTH", 1, "mirrorMaxTreeSize", "(treeSize_ : Int)", "Int",
 			Spec{Kind: "i64", Repl: map[string]string{"currentRoot.TreeSize": "treeSize_"}})},
 		{"ekuTable", mapTable(c, "stringToKeyUsage", "ekuTable")},
+		{"connGuardFacts", connGuardFacts(c)},
+		{"nilSafeFacts", nilSafeFacts(c)},
+		{"ekuLoopFact", ekuLoopFact(c)},
 	}})
 }
